@@ -174,7 +174,7 @@ Section System.
         | None => Ret (RSome false, s)
         end)
     | OCowRead a i => with_reg s a (fun h => Ret (RVal (iface_get ek M h i), s))
-    | OIterCow a items => with_reg s a (fun h =>
+    | OIterCow a items => with_list s a (fun h =>
         '(c, h') <- coll_iter_cow ek M h items ;; Ret (RNum c, rset s a (Some h')))
     | OPush a v => with_list s a (fun h => inplace s a (iface_push M capN h v))
     | OBulk a kvs => with_list s a (fun h =>
